@@ -61,6 +61,30 @@ def _tie_plugin(args):
             rec.corr("program:" + p.NAME, tok, mo, io)
             if r[0] == "ok" and len(insts) == 1:
                 glue(rec, m, p, pb, tok, r[1], insts[0])
+            if getattr(p, "TIER1_PRIM", None):
+                # the same problem on the native-operator route: both configuration flags on (they are read when the
+                # graph helper is called), model solve_<p>_model_prim
+                from cspuz import config
+                rep = m.call("MP %s %s" % (p.NAME, tok))
+                if rep.startswith("OK "):
+                    mo = ("ok", _norm(rep[3:]))
+                elif rep.startswith("E "):
+                    mo = ("err", ERR[int(rep.split()[1])])
+                else:
+                    mo = ("runner", rep)
+                saved = (config.use_graph_primitive, config.use_graph_division_primitive)
+                config.use_graph_primitive = config.use_graph_division_primitive = True
+                try:
+                    r, insts = L.run_recorded(p, pb, "capture")
+                finally:
+                    config.use_graph_primitive, config.use_graph_division_primitive = saved
+                if r[0] == "err":
+                    io = ("err", r[1])
+                elif len(insts) != 1:
+                    io = ("harness", "%d solvers" % len(insts))
+                else:
+                    io = ("ok", _norm(exprio.show_state(insts[0])))
+                rec.corr("program-native:" + p.NAME, tok, mo, io)
     except Exception:  # noqa
         import traceback
         rec.corr("tie-harness:" + name, "exception", "no exception", traceback.format_exc()[-1500:])
